@@ -154,6 +154,38 @@ def run(ctx):
                 failures.append({'input': {'op': op, 'case': enc.describe(pool[j])}, 'observed': '%s: %s' % (type(ex).__name__, ex), 'expected': 'no exception'})
             if [bytes(r) for r in code.matrix] != snap:
                 failures.append({'input': {'op': op, 'case': enc.describe(pool[j])}, 'observed': 'matrix of a returned symbol changed', 'expected': 'unchanged'})
+    # ---- history 1b: long runs of IDENTICAL serialisations (state consumed per call - a shared iterator, a counter, a cache that fills up -
+    #      shows only after many calls): 200 PNG saves per colour set with a transparent entry; no exception, same image data every time
+    if kept:
+        import struct as _st
+        j, code, snap = kept[0]
+        q = segno.QRCode(code)
+        for ckw in (dict(dark=(0, 0, 255, 128), light=None), dict(dark='#1234', light=None, finder_dark=(9, 9, 9, 200)), dict(dark='navy', light=None),
+                    dict(dark=None, light=(250, 250, 250, 10))):
+            ref = None
+            for rep in range(200):
+                n += 1
+                out = io.BytesIO()
+                try:
+                    q.save(out, kind='png', scale=1, **ckw)
+                except Exception as ex:  # noqa: BLE001
+                    failures.append({'input': {'op': 'save png x200', 'colours': repr(ckw), 'call': rep + 1, 'case': enc.describe(pool[j])},
+                                     'observed': '%s: %s' % (type(ex).__name__, ex), 'expected': 'no exception, as for the first call'})
+                    break
+                data, pos, idat = out.getvalue(), 8, b''
+                while pos < len(data):
+                    ln = _st.unpack('>I', data[pos:pos + 4])[0]
+                    if data[pos + 4:pos + 8] in (b'IDAT', b'tRNS', b'IHDR'):
+                        idat += data[pos + 4:pos + 8 + ln]
+                    pos += 12 + ln
+                if ref is None:
+                    ref = idat
+                elif idat != ref:
+                    failures.append({'input': {'op': 'save png x200', 'colours': repr(ckw), 'call': rep + 1, 'case': enc.describe(pool[j])},
+                                     'observed': 'IHDR / tRNS / IDAT differ from the first identical call', 'expected': 'identical image data'})
+                    break
+            if [bytes(r) for r in code.matrix] != snap:
+                failures.append({'input': {'op': 'save png x200', 'case': enc.describe(pool[j])}, 'observed': 'matrix of a returned symbol changed', 'expected': 'unchanged'})
     # ---- history 2: different order
     for i in rng.sample(range(n_pool), n_pool):
         s = result_key(pool[i])
